@@ -211,7 +211,9 @@ func (w *World) judgePersist(op *Op, t *Tree, root *mast.Root, reach []string, s
 					rg := wr.Ranges[s]
 					hit := false
 					for _, r := range mods {
-						if r > rg[0] && r < rg[1] {
+						// inclusive of the bounding separator keys: deleting (or re-inserting) a
+						// separator necessarily merges (re-splits) the two nodes it bounds
+						if r >= rg[0] && r <= rg[1] {
 							hit = true
 							break
 						}
@@ -493,7 +495,8 @@ func (w *World) opDiff(op *Op) {
 			}
 			got = append(got, w.diffRec(kind, key, removedValue, addedValue))
 			if cbErrAt > 0 && calls == cbErrAt {
-				return true, errCallback
+				// the error is what counts, whatever keepGoing says alongside it
+				return op.Val%2 == 0, errCallback
 			}
 			if stop > 0 && calls >= stop {
 				return false, nil
@@ -648,72 +651,92 @@ func (w *World) opDiffLinks(op *Op) {
 	}
 
 	// --- DiffLinks
-	oldM, newM, ok := loadPair(nil)
+	disk := w.disks[d]
+	runDL := func(cache mast.NodeCache, failAt int) (added, removed []string, nonString int, loaded []string, calls int, rr callResult, ok bool) {
+		oldM, newM, ok := loadPair(cache)
+		if !ok {
+			return nil, nil, 0, nil, 0, rr, false
+		}
+		disk.BeginCall()
+		if failAt > 0 {
+			disk.FailLoadAt, disk.FailLoadKind = failAt, "fail"
+		}
+		rr = guard(func() error {
+			return newM.DiffLinks(ctx, oldM, func(rem bool, link interface{}) (bool, error) {
+				s, ok := link.(string)
+				if !ok {
+					nonString++
+					return true, nil
+				}
+				if rem {
+					removed = append(removed, s)
+				} else {
+					added = append(added, s)
+				}
+				return true, nil
+			})
+		})
+		disk.ClearFaults()
+		loaded, _, calls, _ = disk.Window()
+		return added, removed, nonString, loaded, calls, rr, true
+	}
+	added, removed, nonString, loadedDL, dlCalls, rr, ok := runDL(nil, 0)
 	if !ok {
 		return
 	}
-	disk := w.disks[d]
-	var added, removed []string
-	var nonString int
-	disk.BeginCall()
-	rr := guard(func() error {
-		return newM.DiffLinks(ctx, oldM, func(rem bool, link interface{}) (bool, error) {
-			s, ok := link.(string)
-			if !ok {
-				nonString++
-				return true, nil
-			}
-			if rem {
-				removed = append(removed, s)
-			} else {
-				added = append(added, s)
-			}
-			return true, nil
-		})
-	})
-	loadedDL, _, _, _ := disk.Window()
 	if rr.bad() {
 		w.failFor("C07", "difflinks-fails/"+rel, "DiffLinks(%s): %s", rel, rr)
 		return
 	}
 	w.st.OracleEvals++
 	if w.prop == "C07" {
-		if nonString > 0 {
-			w.fail("difflinks-non-name-link/"+rel, "%d reported links of persisted versions are not names", nonString)
+		judge := func(how string, added, removed []string, nonString int) bool {
+			if nonString > 0 {
+				w.fail("difflinks-non-name-link/"+rel, "%s: %d reported links of persisted versions are not names", how, nonString)
+				return false
+			}
+			// at-most-once is demanded of fault-free diffs only: after a transient Load error
+			// the de-duplication memo may legitimately be incomplete (a repeat is harmless to a
+			// replica; a missing name is not)
+			if how != "load-fault" {
+				if dup := firstDup(added); dup != "" {
+					w.fail("added-reported-twice/"+rel, "%s: added node %s reported more than once", how, dup)
+					return false
+				}
+				if dup := firstDup(removed); dup != "" {
+					w.fail("removed-reported-twice/"+rel, "%s: removed node %s reported more than once", how, dup)
+					return false
+				}
+			}
+			addedSet, removedSet := toSet(added), toSet(removed)
+			for _, n := range added {
+				if !setB[n] {
+					w.fail("added-outside-new-version/"+rel, "%s: added node %s is not reachable from the new version", how, n)
+					return false
+				}
+			}
+			for _, n := range removed {
+				if !setA[n] {
+					w.fail("removed-outside-old-version/"+rel, "%s: removed node %s is not reachable from the old version", how, n)
+					return false
+				}
+			}
+			for _, n := range reachB {
+				if !setA[n] && !addedSet[n] {
+					w.fail("added-incomplete/"+rel+"/"+how, "%s: node %s is reachable from the new version only but was not reported as added (%d reported, %d needed)", how, n, len(added), countOnly(setB, setA))
+					return false
+				}
+			}
+			for _, n := range reachA {
+				if !setB[n] && !removedSet[n] {
+					w.fail("removed-incomplete/"+rel+"/"+how, "%s: node %s is reachable from the old version only but was not reported as removed", how, n)
+					return false
+				}
+			}
+			return true
+		}
+		if !judge("cache-less", added, removed, nonString) {
 			return
-		}
-		if dup := firstDup(added); dup != "" {
-			w.fail("added-reported-twice/"+rel, "added node %s reported more than once", dup)
-			return
-		}
-		if dup := firstDup(removed); dup != "" {
-			w.fail("removed-reported-twice/"+rel, "removed node %s reported more than once", dup)
-			return
-		}
-		addedSet, removedSet := toSet(added), toSet(removed)
-		for _, n := range added {
-			if !setB[n] {
-				w.fail("added-outside-new-version/"+rel, "added node %s is not reachable from the new version", n)
-				return
-			}
-		}
-		for _, n := range removed {
-			if !setA[n] {
-				w.fail("removed-outside-old-version/"+rel, "removed node %s is not reachable from the old version", n)
-				return
-			}
-		}
-		for _, n := range reachB {
-			if !setA[n] && !addedSet[n] {
-				w.fail("added-incomplete/"+rel, "node %s is reachable from the new version only but was not reported as added (%d reported, %d needed)", n, len(added), countOnly(setB, setA))
-				return
-			}
-		}
-		for _, n := range reachA {
-			if !setB[n] && !removedSet[n] {
-				w.fail("removed-incomplete/"+rel, "node %s is reachable from the old version only but was not reported as removed", n)
-				return
-			}
 		}
 		// replica run: a store holding old + exactly the added nodes must load the new version
 		rep := NewSimDisk("sim://replica")
@@ -740,6 +763,45 @@ func (w *World) opDiffLinks(op *Op) {
 			return
 		}
 		w.st.Probes["replica-sync-ok"]++
+		// the same diff computed by trees that load through the world's shared cache
+		if w.cache != nil {
+			a2, r2, ns2, _, _, rr2, ok := runDL(asNodeCache(w.cache), 0)
+			if !ok {
+				return
+			}
+			if rr2.bad() {
+				w.fail("difflinks-fails/"+rel+"/shared-cache", "DiffLinks through the shared cache: %s", rr2)
+				return
+			}
+			w.st.Probes["difflinks-through-shared-cache"]++
+			if !judge("shared-cache", a2, r2, ns2) {
+				return
+			}
+		}
+		// transient store faults: each single Load call of the diff fails once. The diff may
+		// report the error; if it reports success its output must still be complete.
+		maxF := dlCalls
+		if maxF > 12 {
+			maxF = 12
+		}
+		for i := 1; i <= maxF; i++ {
+			a3, r3, ns3, _, _, rr3, ok := runDL(nil, i)
+			if !ok {
+				return
+			}
+			w.st.Faults["load-fail"]++
+			if rr3.panicked != nil {
+				continue
+			}
+			if rr3.err != nil {
+				w.st.Probes["difflinks-fault-reported"]++
+				continue
+			}
+			w.st.Probes["difflinks-fault-absorbed"]++
+			if !judge(fmt.Sprintf("load-fault"), a3, r3, ns3) {
+				return
+			}
+		}
 		return
 	}
 	if w.prop == "C15" {
@@ -752,7 +814,7 @@ func (w *World) opDiffLinks(op *Op) {
 			return
 		}
 		// DiffIter
-		oldM, newM, ok = loadPair(nil)
+		oldM, newM, ok := loadPair(nil)
 		if !ok {
 			return
 		}
@@ -848,14 +910,15 @@ func (w *World) opProbe(op *Op) {
 	H := int(v.root.Height)
 	disk.BeginCall()
 	m, r := w.loadRoot(v.root, v.disk, nil, nil)
-	loaded, _, _, _ := disk.Window()
+	_, _, lmCalls, _ := disk.Window()
 	if r.bad() {
 		w.failFor("C05", "reload-fails", "LoadMast: %s", r)
 		return
 	}
 	w.st.OracleEvals++
-	if len(loaded) > 1 {
-		w.failFor("C16", "loadmast-reads-more-than-top", "LoadMast read %d distinct nodes", len(loaded))
+	// reads are counted as Persist.Load calls (the tree has no cache, so every call is a read)
+	if lmCalls > 1 {
+		w.failFor("C16", "loadmast-reads-more-than-top", "LoadMast made %d Load calls", lmCalls)
 		return
 	}
 	key := w.kd.Key(op.Key)
@@ -901,8 +964,8 @@ func (w *World) opProbe(op *Op) {
 	if calls > w.st.Max["load-calls-per-point-op"] {
 		w.st.Max["load-calls-per-point-op"] = calls
 	}
-	if len(loaded) > bound {
-		w.failFor("C16", what+"-reads-too-much/"+pk, "%s(key#%d, %s) on a height-%d tree read %d distinct nodes (bound %d)", what, op.Key, pk, H, len(loaded), bound)
+	if calls > bound {
+		w.failFor("C16", what+"-reads-too-much/"+pk, "%s(key#%d, %s) on a height-%d tree made %d Load calls for %d distinct nodes (bound %d)", what, op.Key, pk, H, calls, len(loaded), bound)
 	}
 }
 
